@@ -72,16 +72,18 @@ Definition kept_ok (exact : bool) (T : option Q) (s : xq) (kept : option bool) :
 Definition check_pair (p : Q) (cmps : list (list level)) (tbl : list (Q * Q * Q)) (Tw Tp : option Q) (exact : bool) (x : ipair) : list nat :=
   let tfs := fun k => nth k (p_tf x) (None, None) in
   let outcs := map (fun v => fun i => tvn (nth i v 2%nat)) (p_outc x) in
-  let tfcols_ok := all2 (fun a b => oclose (qclose e12) (fst a) (fst b) && oclose (qclose e12) (snd a) (snd b)) (p_itf x) (p_tf x) in
+  (* p_cols = [] : the model was run with Splink's default retain flags, the intermediate columns do not exist *)
+  let retained := match p_cols x with [] => false | _ => true end in
+  let tfcols_ok := negb retained || all2 (fun a b => oclose (qclose e12) (fst a) (fst b) && oclose (qclose e12) (snd a) (snd b)) (p_itf x) (p_tf x) in
   match eval_all (tpow tbl) tfs cmps outcs with
   | None => (if forallb (fun c => match c with (None, _, _) => true | _ => false end) (p_cols x) then [] else [10%nat])
             ++ (match p_score x with None => [] | Some _ => [5%nat] end)
   | Some cs =>
       let terms := all_terms cs in
       let s := score_of_cols p cs in
-      (if all2 (fun c i => zopt_eqb (fst (fst i)) (Some (c_gamma c))) cs (p_cols x) then [] else [1%nat]) ++
-      (if all2 (fun c i => oclose (xclose e9) (snd (fst i)) (Some (c_bf c))) cs (p_cols x) then [] else [2%nat]) ++
-      (if all2 (fun c i => oclose (xclose e9) (snd i) (option_map Fin (c_tf c))) cs (p_cols x) then [] else [3%nat]) ++
+      (if negb retained || all2 (fun c i => zopt_eqb (fst (fst i)) (Some (c_gamma c))) cs (p_cols x) then [] else [1%nat]) ++
+      (if negb retained || all2 (fun c i => oclose (xclose e9) (snd (fst i)) (Some (c_bf c))) cs (p_cols x) then [] else [2%nat]) ++
+      (if negb retained || all2 (fun c i => oclose (xclose e9) (snd i) (option_map Fin (c_tf c))) cs (p_cols x) then [] else [3%nat]) ++
       (if tfcols_ok then [] else [4%nat]) ++
       (if oclose (xclose e9) (p_score x) (Some s) then [] else [5%nat]) ++
       (if oclose (fun a b => Qle_bool (Qabs (a - b)) e9) (p_prob x) (Some (match_probability_of p terms)) then [] else [6%nat]) ++
@@ -257,7 +259,14 @@ def frame(rows):
 
 def make_linker(case):
     spec = case["spec"]
-    lk = su.linker([frame(case["rows"])], G.settings_creator(spec, case["rules"], case["backend"]), case["backend"])
+    retain = case.get("retain", True)
+    if spec["link_type"] == "dedupe_only":
+        tabs, names = [frame(case["rows"])], None
+    else:
+        # two input tables (unique ids stay globally unique); term frequencies come from their concatenation
+        k = case.get("split", len(case["rows"]) // 2)
+        tabs, names = [frame(case["rows"][:k]), frame(case["rows"][k:])], ["ta", "tb"]
+    lk = su.linker(tabs, G.settings_creator(spec, case["rules"], case["backend"], retain=retain), case["backend"], aliases=names)
     G.apply_setters(lk._settings_obj, spec)
     for c, tbl in case["lookups"].items():
         df = pd.DataFrame([{c: v, f"tf_{c}": float(Fr(t))} for v, t in tbl.items()])
@@ -378,7 +387,7 @@ def run_impl(case):
         res["thr_p_value"] = thr
         out = su.records(lk.inference.predict(threshold_match_probability=thr))
         res["kept_p"] = {(int(r["unique_id_l"]), int(r["unique_id_r"])) for r in out}
-    if case.get("waterfall") and recs:
+    if case.get("waterfall") and case.get("retain", True) and recs:
         ch = lk.visualisations.waterfall_chart(recs, filter_nulls=False, as_dict=True)
         by = {}
         for v in ch["data"]["values"]:
@@ -426,8 +435,14 @@ def impl_cols(spec, rec):
     return cols, sc, mpq, itf, bad_num
 
 
-def pair_term(spec, oc, tfv, rec, kw=None, kp=None, wf=None):
+def pair_term(spec, oc, tfv, rec, kw=None, kp=None, wf=None, retained=True):
     cols, sc, mpq, itf, bad_num = impl_cols(spec, rec)
+    if not retained:
+        # default retain flags: the intermediate columns must really be absent; only weight / probability are read
+        leaked = [k for k in rec if k.startswith(("bf_", "tf_"))]
+        if leaked:
+            bad_num = True
+        cols, itf = [], []
     t = ("(mkp " + coq_list([coq_list([f"{v}%nat" for v in lv], "nat") for lv in oc], "(list nat)") + " "
          + coq_list([f"({oq(tfv[c][0])}, {oq(tfv[c][1])})" for c in spec["tf_cols"]], "(option Q * option Q)") + " "
          + coq_list([f"({oq(a)}, {oq(b)})" for a, b in itf], "(option Q * option Q)") + " "
@@ -484,7 +499,7 @@ def case_term(case, impl):
                     bfv, lg = b["bayes_factor"], b["log2_bayes_factor"]
                     if bfv > 0 and not math.isinf(bfv):
                         waterfall_py_ok &= abs(math.log2(bfv) - lg) <= 1e-9 * max(1.0, abs(lg))
-        t, bad_num = pair_term(spec, oc, tfv, rec, kw, kp, wf)
+        t, bad_num = pair_term(spec, oc, tfv, rec, kw, kp, wf, retained=case.get("retain", True))
         pterms.append(t)
         infos.append({"pair": (i, j), "py": py, "bad_num": bad_num or bad_wf})
     Tw = None if impl["kept_w"] is None else Fr(2.0 ** impl["thr_w_value"])
